@@ -33,6 +33,7 @@ CLAIMED = {
     "C18": (H, "Real Agent behind the real Cluster API (stub provider via Config.WithProvider), deterministic thread schedule, quiescence after each step: all sequences of <=3 (thorough 4) membership snapshots out of 12 (every subset of a 4-member universe containing the observing node, plus lists with duplicate entries; fresh Member objects each time); after every snapshot Members(), the MemberJoinEvent/MemberLeaveEvent multiset since the previous snapshot and HasKind for 4 kinds are compared with a set model.", "§5 C18"),
     "C19": (H + "; the arrival order of each operation's notifications is an enumerated data choice", "2 (thorough: 3) real engines with real cluster agents in one world, outbound messages captured by a pool Remoter and delivered in every order after each operation (operations run on their own thread so that request/response round trips can complete while they block; timeouts are virtual and fire only when nothing is left to deliver): all histories of <=3 (thorough 4) enabled operations over join / leave / activate (3 kinds, 2 ids, first capable or fixed member) / deactivate / cluster spawn; reference model = membership + global id->host map; Activate result, uniqueness, placement, GetActiveByID/ByKind on every member, registries, purge on leave, topology transfer on join.", "§5 C19"),
     "C20": (H, "Real SelfManaged provider (zeroconf replaced by an inert shim, member-ping ticker fired explicitly, log.Fatal recorded) reporting to a stub agent, outbound messages captured by a pool Remoter: all sequences of <=3 (thorough 4) events out of 12 (handshake from 3 peers, 4 member lists incl. duplicates and self, unreachable report for each peer address and for an address that never was a member, ticker); after each event the reference member set is compared with the lists reported to the agent, the handshake reply and its addressee, the ping targets, and no ActorRestartedEvent for the provider.", "§5 C20"),
+    "C17": (S + " on an in-memory transport model of TCP+drpc, bound to the implementation by a conformance replay of the same scenarios over real loopback TCP; the Start/Stop clause is decided by exhaustive enumeration of call sequences on the real listener", "Controlled leg: two real engines with the real remote.Remote, streamRouter, streamWriter (dial retry loop with virtual back-off), streamReader, serializer and generated drpc glue in one scheduler world; only net / drpcconn / drpcserver are replaced by an in-memory FIFO transport. 1-3 sender threads x 1-3 messages to 1-2 actors on the peer (with/without sender), an actor sender, a request/response pair, dial-failure sequences down^j up for j in {0,1,2,3,6}: exactly-once, right target and sender, per-sender order, reply reaches the requester, one RemoteUnreachableEvent per failed connection attempt, conservation (delivered xor dead-lettered), fresh attempt after the episode; deviation bound 1-2. Conformance leg: every scenario variant is re-run on the uninstrumented code over real TCP and its canonical observation record must be one the controlled leg produced; all Start/Stop/Stop+Wait/dial-probe sequences of length <=4 on a real listener.", "§5 C17"),
 }
 
 NOT_YET = "check not built yet in this session (planned: see DESIGN.md §5); not claimed until it runs green on the unchanged tree"
